@@ -719,8 +719,11 @@ class Exec:
                 yield r, None
                 return
         if spec is None:
-            raise Unsupported('no loop contract for %s loop %d (line %d)' % (
-                fi.qual, ordinal, s.lineno))
+            # a loop the contract does not know (new code): cut with the
+            # weakest invariant `true` -- sound, everything the loop assigns
+            # is unknown afterwards; obligations that need more fail
+            spec = LoopSpec()
+            self.default_loops = getattr(self, 'default_loops', 0) + 1
         tag = 'loop%d' % ordinal
         is_for = isinstance(s, ast.For)
         iters = [(st, None)]
@@ -795,6 +798,11 @@ class Exec:
                     # normal end of body or continue: back edge
                     for w in b2.writes[nwr:]:
                         if w[0] < mark and w not in hav:
+                            if not spec.invs and not spec.shapes and \
+                                    not spec.modifies:
+                                raise Unsupported(
+                                    'loop %s of %s (no loop contract) '
+                                    'writes %r' % (tag, fi.qual, w))
                             raise EngineError(
                                 'loop %s of %s writes %r which is not in '
                                 'its havoc set (declare it in modifies)' % (
@@ -1238,6 +1246,10 @@ class Exec:
                 rest.first = sg.first
                 lst.segs[-1:] = [rest, Single(v)]
             return
+        if i > 0 and len(lst.segs) > i and all(
+                isinstance(sg, Single) for sg in lst.segs[:i + 1]):
+            lst.segs[i] = Single(v)
+            return
         raise Unsupported('index store [%d] at %d' % (i, line))
 
     def list_extend(self, lst, other, st, line):
@@ -1515,7 +1527,12 @@ class Exec:
                     if is_bool(a) and is_bool(b):
                         yield st1, (And(t, tb) if is_and else Or(t, tb))
                         continue
-                    mv = merge_pair(self, g, b, a, st1)
+                    a_eff = a
+                    if not is_and and isinstance(a, OptVal):
+                        # `a or b` yields a only when a is truthy, hence
+                        # not None: the wrapped value itself
+                        a_eff = a.val
+                    mv = merge_pair(self, g, b, a_eff, st1)
                     if mv is not NotImplemented:
                         yield st1, mv
                         continue
